@@ -149,6 +149,27 @@ func (w *World) registerIntrinsics() {
 		e.check("assert", id, "assertion "+id+" violated", a[1].(*Term))
 		return nil
 	}
+	// verifOpaque(id, observable, secret): under the ideal-crypto model the secret does
+	// not occur in the observable outside an encryption / MAC / hash application.
+	// The term walk decides exposure; an exposed secret is a violation on every
+	// model of the path with a non-empty secret (the solver supplies it, the native
+	// run confirms the plain-text / base64 / hex occurrence).
+	I["@verifOpaque"] = func(e *Exec, fn *ssa.Function, a []Value) Value {
+		id := e.constStr(a[0], "opaque id")
+		obs := a[1].(*Term)
+		sec := a[2].(*Term)
+		if sec.isConst() {
+			e.unsupported("verifOpaque: the secret must be symbolic")
+		}
+		if exposes(obs, sec, map[*Term]bool{}) {
+			e.check("assert", id, "secret occurs in the observable outside any encryption/MAC/hash ("+id+")", mkEq(sec, mkStr("")))
+		} else {
+			e.res.Obligations++
+			e.res.Discharged++
+			e.res.Opaque++
+		}
+		return nil
+	}
 	I["@verifReach"] = func(e *Exec, fn *ssa.Function, a []Value) Value {
 		id := e.constStr(a[0], "reach id")
 		e.res.Reached = append(e.res.Reached, id)
@@ -1045,4 +1066,36 @@ func regexpQuoteMeta(s string) string {
 		b.WriteByte(s[i])
 	}
 	return b.String()
+}
+
+// opaqueUF: applications that hide their arguments from whoever lacks the key
+// (or are one-way).
+var opaqueUF = map[string]bool{"HMAC": true, "SHA256": true, "SHA1": true, "Enc": true, "CFBenc": true, "bcrypt_outcome": true}
+
+// exposes reports whether sec occurs in t at a position that is not below an
+// opaque application.  Everything that is not opaque counts as transparent
+// (concatenation, slicing, base64/hex, msgpack, lz4, URL escaping ...).
+func exposes(t, sec *Term, seen map[*Term]bool) bool {
+	if seen[t] {
+		return false
+	}
+	seen[t] = true
+	if t.sort == sec.sort && t.String() == sec.String() {
+		return true
+	}
+	if strings.HasPrefix(t.op, "uf:") {
+		n := strings.TrimPrefix(t.op, "uf:")
+		if opaqueUF[n] || strings.HasPrefix(n, "CFB_") {
+			return false
+		}
+	}
+	if t.op == "str.len" || t.op == "str.indexof" || t.op == "str.contains" || t.op == "str.prefixof" || t.op == "str.suffixof" || t.op == "=" {
+		return false // lengths and comparison outcomes are not the value
+	}
+	for _, a := range t.args {
+		if exposes(a, sec, seen) {
+			return true
+		}
+	}
+	return false
 }
